@@ -75,6 +75,9 @@ package util
 //@   requires distinctKinds(ordering)
 //@   marks forall l []*rspb.Hook, i int :: !fresh(l) ==> l[i] == old(l[i])
 //@   ensures [heads-parsed] forall j int :: 0 <= j && j < len(result1) ==> result1[j].Head != nil
+//@   ensures [hooks-exist] forall j int :: 0 <= j && j < len(result0) ==> result0[j] != nil
+//@   ensures [rendered-files-untouched] forall mm gomap[string]string, k string :: !fresh(mm) ==> has(mm, k) == old(has(mm, k)) && mm[k] == old(mm[k])
+//@   loop 2 invariant [rendered-files-untouched] forall mm gomap[string]string, k string :: !fresh(mm) ==> has(mm, k) == old(has(mm, k)) && mm[k] == old(mm[k])
 //@   ensures [manifests-ordered-by-kind] result2 == nil ==> (forall a, b int :: 0 <= a && a < b && b < len(result1) ==> !kindBefore(result1[b].Head.Kind, result1[a].Head.Kind, ordering))
 //@   ensures [hooks-ordered-by-kind] result2 == nil ==> (forall a, b int :: 0 <= a && a < b && b < len(result0) ==> result0[a] != nil && result0[b] != nil && !kindBefore(result0[b].Kind, result0[a].Kind, ordering))
 //@   loop 1 invariant [order-table-untouched] distinctKinds(ordering) && result != nil && len(result.generic) == 0 && len(result.hooks) == 0
@@ -124,6 +127,7 @@ package util
 //@   ensures [hooks-name-only-known-events] forall q int :: old(len(result.hooks)) <= q && q < len(result.hooks) ==> hookFromDoc(result.hooks[q])
 //@   ensures [manifests-carry-no-hook-annotation] forall q int :: old(len(result.generic)) <= q && q < len(result.generic) ==> !docHasHookAnno(result.generic[q].Content) && result.generic[q].Head != nil
 //@   ensures [other-string-lists-untouched] forall l []string, i int :: !fresh(l) ==> l[i] == old(l[i])
+//@   ensures [other-string-maps-untouched] forall mm gomap[string]string, k string :: !fresh(mm) ==> has(mm, k) == old(has(mm, k)) && mm[k] == old(mm[k])
 //@   ensures [earlier-entries-kept] len(result.hooks) >= old(len(result.hooks)) && len(result.generic) >= old(len(result.generic)) && (forall q int :: 0 <= q && q < old(len(result.hooks)) ==> result.hooks[q] == old(result.hooks[q])) && (forall q int :: 0 <= q && q < old(len(result.generic)) ==> result.generic[q] == old(result.generic[q]))
 //@   loop 2 invariant [hooks-name-only-known-events] forall q int :: old(len(result.hooks)) <= q && q < len(result.hooks) ==> hookFromDoc(result.hooks[q])
 //@   loop 2 invariant [manifests-carry-no-hook-annotation] forall q int :: old(len(result.generic)) <= q && q < len(result.generic) ==> !docHasHookAnno(result.generic[q].Content)
@@ -132,6 +136,7 @@ package util
 //@   loop 2 invariant [one-place-per-document] len(result.hooks) + len(result.generic) <= old(len(result.hooks)) + old(len(result.generic)) + #iter
 //@   loop 1 invariant [keys-in-a-list-of-their-own] len(sortedEntryKeys) == 0 || fresh(sortedEntryKeys)
 //@   loop 2 invariant [other-string-lists-untouched] forall l []string, i int :: !fresh(l) ==> l[i] == old(l[i])
+//@   loop 2 invariant [other-string-maps-untouched] forall mm gomap[string]string, k string :: !fresh(mm) ==> has(mm, k) == old(has(mm, k)) && mm[k] == old(mm[k])
 //@   loop 2 invariant [frame] result != nil && file.entries == old(file.entries) && file.entries != nil && (forall k string :: has(file.entries, k) == old(has(file.entries, k)) && file.entries[k] == old(file.entries[k]))
 //@   loop 3 invariant [all-known-so-far] h != nil && fresh(h) && len(h.Events) == #iter && (forall j int :: 0 <= j && j < #iter ==> has(events, lower(trimspace(#range[j]))) && h.Events[j] == events[lower(trimspace(#range[j]))])
 //@   loop 3 invariant [hook-under-construction] h.Manifest == m && (forall q int :: 0 <= q && q < len(result.hooks) ==> result.hooks[q] != h)
